@@ -30,6 +30,11 @@ TrUnsubscribe ==
   /\ IsEvent("Unsubscribe")
   /\ Unsubscribe(Ev.args.mode, Ev.args.o, Ev.args.m, Ev.args.t, Ev.args.id)
   /\ Seen
+TrUnsubscribeMany ==
+  /\ IsEvent("UnsubscribeMany")
+  /\ UnsubscribeMany(Ev.args.items)
+  /\ Seen
+TrClearAll == IsEvent("ClearAll") /\ ClearAll /\ Seen
 TrDropOwner == IsEvent("DropOwner") /\ DropOwnerAny(Ev.args.o) /\ Seen
 TrRaiseBegin ==
   /\ IsEvent("RaiseBegin")
@@ -38,7 +43,7 @@ TrRaiseBegin ==
 TrRaiseSimple == IsEvent("RaiseSimple") /\ RaiseSimple(Ev.args.t, Ev.args.form) /\ Seen
 TrReturn == IsEvent("Return") /\ Return(Ev.args.rv) /\ Seen
 
-TrNext == TrSubscribe \/ TrAutoBind \/ TrUnsubscribe \/ TrDropOwner
+TrNext == TrSubscribe \/ TrAutoBind \/ TrUnsubscribe \/ TrUnsubscribeMany \/ TrClearAll \/ TrDropOwner
           \/ TrRaiseBegin \/ TrRaiseSimple \/ TrReturn
 TrSpec == TrInit /\ [][TrNext]_tvars
 
